@@ -41,17 +41,17 @@ NEED_EVENTS = ["send", "recv:some", "recv:none", "has", "create_sub:ok", "create
 def mc_instances(quick):
     Q = ps.qos
     inst = [("A_1x2_overflow", Q(maxpubs=1, maxsubs=2, bufmax=1, hist=1, borrow=1, loan=1, overflow=True),
-             [1], [1, 2], [1], [1], 3, None)]
+             [1], [1, 2], [1], [1], 3, None),
+            ("B_2x1_retry", Q(maxpubs=2, maxsubs=1, bufmax=1, hist=1, borrow=1, loan=1, overflow=False, strategy="retry_fail"),
+             [1, 2], [1], [1], [1], 3, None)]
     if not quick:
         inst += [
-            ("B_2x1_retry", Q(maxpubs=2, maxsubs=1, bufmax=1, hist=1, borrow=1, loan=1, overflow=False, strategy="retry_fail"),
-             [1, 2], [1], [1], [1], 3, None),
             ("R_reconnect", Q(maxpubs=1, maxsubs=1, bufmax=1, hist=1, borrow=1, loan=1, overflow=True),
              [1, 2], [1, 2], [1], [1], 3, None),
             ("C_1x2_discard_b2", Q(maxpubs=1, maxsubs=2, bufmax=2, hist=2, borrow=1, loan=1, overflow=False),
              [1], [1, 2], [1, 2], [0, 2], 3, None),
             ("T_2x2_overflow", Q(maxpubs=2, maxsubs=2, bufmax=2, hist=1, borrow=1, loan=1, overflow=True),
-             [1, 2], [1, 2], [1, 2], [0, 1], 3, "SysView"),
+             [1, 2], [1, 2], [2], [0, 1], 3, "SysView"),
             ("T_2x2_retry", Q(maxpubs=2, maxsubs=2, bufmax=1, hist=1, borrow=1, loan=1, overflow=False, strategy="retry_discard"),
              [1, 2], [1, 2], [1], [0, 1], 3, "SysView"),
         ]
